@@ -88,6 +88,18 @@ func errorMessages(env map[string]interface{}) []interface{} {
 	return out
 }
 
+func inPlan(plans []*gw.PlanRec, url, query string) bool {
+	if len(plans) == 0 {
+		return false
+	}
+	for _, st := range plans[len(plans)-1].Flat() {
+		if st.URL == url && st.Query == query {
+			return true
+		}
+	}
+	return false
+}
+
 type callEv struct {
 	Ev   string                   `json:"ev"`
 	Svc  string                   `json:"svc"`
@@ -123,7 +135,20 @@ func runOp(em *emitter, g *gw.GW, mono *fakesvc.Net, w *world.World, op *world.O
 	logs, calls := g.Net.Snapshot()
 	if len(plans) > 0 {
 		p := plans[len(plans)-1]
-		em.emit(map[string]interface{}{"ev": "Plan", "levels": levels(p), "err": p.Err, "nsteps": len(p.Roots)})
+		steps := []map[string]interface{}{}
+		for _, st := range p.Flat() {
+			ip := st.InsertionPoint
+			if ip == nil {
+				ip = []string{}
+			}
+			steps = append(steps, map[string]interface{}{"url": st.URL, "parentType": st.ParentType, "ip": ip, "depth": st.Depth,
+				"internal": st.Internal, "query": st.Query, "facts": st.Facts})
+		}
+		scrub := map[string]interface{}{}
+		for k, v := range p.Scrub {
+			scrub[k] = v
+		}
+		em.emit(map[string]interface{}{"ev": "Plan", "levels": levels(p), "err": p.Err, "nsteps": len(p.Roots), "steps": steps, "scrub": scrub})
 	}
 	_ = qcalls
 	for _, c := range calls {
@@ -149,13 +174,16 @@ func runOp(em *emitter, g *gw.GW, mono *fakesvc.Net, w *world.World, op *world.O
 					undeclared = append(undeclared, u)
 				}
 			}
+			if l.Used == nil {
+				l.Used = []string{}
+			}
 			roots := l.Roots
 			if roots == nil {
 				roots = []fakesvc.RootSel{}
 			}
 			ce.Reqs = append(ce.Reqs, map[string]interface{}{
 				"kw": l.Kw, "parses": l.Parses, "validates": l.Validates, "err": l.Err, "roots": roots,
-				"undeclared": undeclared, "query": l.Query,
+				"undeclared": undeclared, "query": l.Query, "passed": l.Passed, "defaults": l.Defaults, "used": l.Used, "inPlan": inPlan(plans, l.Svc, l.Query),
 			})
 		}
 		em.emit(ce)
